@@ -27,23 +27,181 @@ def WF (n : Nat) (s : TState) : Prop :=
   (s.disp = false → Cong s.base (s.coords.headD [])) ∧
   (s.disp = true → ∀ v ∈ s.coords.headD [], v = 0)
 
+/-! ### helpers -/
+
+theorem map_wrap_idem (c : List Frame) :
+    (c.map (·.map wrap)).map (·.map wrap) = c.map (·.map wrap) := by
+  simp [List.map_map, Function.comp_def, wrap_wrap]
+
+theorem absPos_of_pos (s : TState) (h : s.disp = false) : absPos s = s.coords.map (·.map wrap) := by
+  simp [absPos, toPositions, h]
+
+theorem absPos_of_disp (s : TState) (h : s.disp = true) :
+    absPos s = ((cumsum s.coords).map (vadd s.base)).map (·.map wrap) := by
+  simp [absPos, toPositions, h]
+
+theorem Cong.to01 {a b : Frame} {n : Nat} (h : Cong a b) (hn : a.length = n) : G.C01.Cong a b n :=
+  ⟨hn, by rw [← h.1, hn], fun j _ => h.2 j⟩
+
+theorem Cong.refl (a : Frame) : Cong a a := ⟨rfl, fun _ => ⟨0, by simp⟩⟩
+
+theorem getD_zero_of_ge (a : Frame) (j : Nat) (h : a.length ≤ j) : a.getD j 0 = 0 := by
+  simp [List.getD_eq_getElem?_getD, List.getElem?_eq_none h]
+
+theorem Cong.map_wrap_right {a b : Frame} (h : Cong a b) : Cong a (b.map wrap) := by
+  refine ⟨by simpa using h.1, fun j => ?_⟩
+  by_cases hj : j < b.length
+  · obtain ⟨k, hk⟩ := h.2 j
+    obtain ⟨m, hm⟩ := wrap_congr (b.getD j 0)
+    rw [getD_map _ _ _ hj, hm, hk]
+    exact ⟨k - m, by push_cast; ring⟩
+  · have hj' : b.length ≤ j := Nat.le_of_not_lt hj
+    rw [getD_zero_of_ge a j (by rw [h.1]; exact hj'), getD_zero_of_ge _ j (by simpa using hj')]
+    exact ⟨0, by simp⟩
+
+theorem rect_cumsumFrom (n : Nat) : ∀ (fs : List Frame) (acc : Frame), acc.length = n → Rect fs n →
+    Rect (cumsumFrom acc fs) n := by
+  intro fs
+  induction fs with
+  | nil => intro acc _ _ f hf; simp [cumsumFrom] at hf
+  | cons g fs ih =>
+    intro acc hacc hr f hf
+    have hg : g.length = n := hr g (by simp)
+    have ha : (vadd acc g).length = n := by rw [length_vadd, hacc, hg]; simp
+    simp only [cumsumFrom, List.mem_cons] at hf
+    rcases hf with hf | hf
+    · rw [hf]; exact ha
+    · exact ih _ ha (fun f hf => hr f (List.mem_cons_of_mem _ hf)) f hf
+
+theorem rect_diffs (n : Nat) : ∀ (fs : List Frame) (p : Frame), p.length = n → Rect fs n →
+    Rect (diffs p fs) n := by
+  intro fs
+  induction fs with
+  | nil => intro p _ _ f hf; simp [diffs] at hf
+  | cons g fs ih =>
+    intro p hp hr f hf
+    have hg : g.length = n := hr g (by simp)
+    simp only [diffs, List.mem_cons] at hf
+    rcases hf with hf | hf
+    · rw [hf]; simp [length_vsub, hg, hp]
+    · exact ih _ hg (fun f hf => hr f (List.mem_cons_of_mem _ hf)) f hf
+
+theorem vadd_zero_right (a z : Frame) (hl : a.length = z.length) (hz : ∀ v ∈ z, v = 0) : vadd a z = a := by
+  apply ext_getD _ _ a.length (by rw [length_vadd, hl]; simp) rfl
+  intro j hj
+  have hjz : j < z.length := hl ▸ hj
+  rw [getD_vadd _ _ _ hj hjz, getD_eq _ _ _ hjz, hz _ (List.getElem_mem hjz), add_zero]
+
+theorem vadd_zero_left (z a : Frame) (hl : z.length = a.length) (hz : ∀ v ∈ z, v = 0) : vadd z a = a := by
+  apply ext_getD _ _ a.length (by rw [length_vadd, hl]; simp) rfl
+  intro j hj
+  have hjz : j < z.length := hl ▸ hj
+  rw [getD_vadd _ _ _ hjz hj, getD_eq _ _ _ hjz, hz _ (List.getElem_mem hjz), zero_add]
+
+theorem mem_zerosLike (f : Frame) : ∀ v ∈ zerosLike f, v = 0 := by
+  intro v hv
+  simp only [zerosLike, List.mem_map] at hv
+  obtain ⟨_, _, rfl⟩ := hv
+  rfl
+
 theorem fresh_wf (c : List Frame) (n : Nat) (hr : Rect c n) (hne : c ≠ []) : WF n (fresh c) := by
-  sorry
+  cases c with
+  | nil => exact absurd rfl hne
+  | cons f rest =>
+    refine ⟨hr f (by simp), hr, hne, fun _ => Cong.refl _, fun h => ?_⟩
+    simp [fresh] at h
 
 theorem toPositions_wf (n : Nat) (s : TState) (h : WF n s) : WF n (toPositions s) := by
-  sorry
+  obtain ⟨hb, hr, hne, hp, hd⟩ := h
+  obtain ⟨dsp, coords, base⟩ := s
+  cases coords with
+  | nil => exact absurd rfl hne
+  | cons f rest =>
+    have hf : f.length = n := hr f (by simp)
+    cases dsp with
+    | false =>
+      refine ⟨hb, ?_, by simp [toPositions], fun _ => ?_, fun h => by simp [toPositions] at h⟩
+      · intro g hg
+        simp only [toPositions, Bool.false_eq_true, if_false, List.mem_map] at hg
+        obtain ⟨g', hg', rfl⟩ := hg
+        simpa using hr g' hg'
+      · have := (hp rfl).map_wrap_right
+        simpa [toPositions] using this
+    | true =>
+      have hz : ∀ v ∈ f, v = 0 := hd rfl
+      have hzl : (zerosLike f).length = n := by rw [length_zerosLike, hf]
+      have h1 : vadd (zerosLike f) f = f := vadd_zerosLike_left f
+      have h2 : vadd base f = base := vadd_zero_right base f (by rw [hf]; exact hb) hz
+      have hrc : Rect (cumsumFrom f rest) n :=
+        rect_cumsumFrom n rest f hf (fun g hg => hr g (List.mem_cons_of_mem _ hg))
+      refine ⟨hb, ?_, by simp [toPositions, cumsum, cumsumFrom], fun _ => ?_,
+        fun h => by simp [toPositions] at h⟩
+      · intro g hg
+        simp only [toPositions, if_true, cumsum, cumsumFrom, h1, List.map_cons, List.mem_cons,
+          List.mem_map] at hg
+        rcases hg with rfl | ⟨g', ⟨g'', hg'', rfl⟩, rfl⟩
+        · simpa [h2] using hb
+        · simp [length_vadd, hrc g'' hg'', show base.length = n from hb]
+      · have : Cong base (base.map wrap) := (Cong.refl base).map_wrap_right
+        simpa [toPositions, cumsum, cumsumFrom, h1, h2] using this
 
 theorem toDisplacements_wf (n : Nat) (s : TState) (h : WF n s) : WF n (toDisplacements s) := by
-  sorry
+  obtain ⟨dsp, coords, base⟩ := s
+  cases dsp with
+  | true => simpa [toDisplacements] using h
+  | false =>
+    obtain ⟨hb, hr, hne, hp, hd⟩ := h
+    cases coords with
+    | nil => exact absurd rfl hne
+    | cons f rest =>
+      have hf : f.length = n := hr f (by simp)
+      have hzl : (zerosLike f).length = n := by rw [length_zerosLike, hf]
+      have hrd : Rect (diffs f rest) n :=
+        rect_diffs n rest f hf (fun g hg => hr g (List.mem_cons_of_mem _ hg))
+      refine ⟨hb, ?_, by simp [toDisplacements, toDispCoords], fun h => by simp [toDisplacements] at h,
+        fun _ => ?_⟩
+      · intro g hg
+        simp only [toDisplacements, Bool.false_eq_true, if_false, toDispCoords, List.mem_cons] at hg
+        rcases hg with rfl | hg
+        · exact hzl
+        · exact hrd g hg
+      · simpa [toDisplacements, toDispCoords] using mem_zerosLike f
 
 /-- reading positions does not change what the state denotes -/
 theorem toPositions_abs (s : TState) : absPos (toPositions s) = absPos s := by
-  sorry
+  show (toPositions (toPositions s)).coords = (toPositions s).coords
+  have h : (toPositions s).disp = false := rfl
+  have := absPos_of_pos (toPositions s) h
+  unfold absPos at this
+  rw [this]
+  simp only [toPositions]
+  exact map_wrap_idem _
 
 /-- **C15 (hidden mode switch)**: switching the storage to displacements in place does not change
 the positions the trajectory denotes. -/
 theorem toDisplacements_abs (n : Nat) (s : TState) (h : WF n s) : absPos (toDisplacements s) = absPos s := by
-  sorry
+  obtain ⟨dsp, coords, base⟩ := s
+  cases dsp with
+  | true => simp [toDisplacements]
+  | false =>
+    obtain ⟨hb, hr, hne, hp, hd⟩ := h
+    cases coords with
+    | nil => exact absurd rfl hne
+    | cons f rest =>
+      have hb : base.length = n := hb
+      have hf : f.length = n := hr f (by simp)
+      have hzl : (zerosLike f).length = n := by rw [length_zerosLike, hf]
+      have hbz : vadd base (zerosLike f) = base :=
+        vadd_zero_right base _ (by rw [hzl, hb]) (mem_zerosLike f)
+      have hc : G.C01.Cong (vadd base (zerosLike f)) f n := by
+        rw [hbz]; exact (hp rfl).to01 hb
+      have key := cumsum_diffs_wrap base n hb rest f (zerosLike f)
+        (fun g hg => hr g (List.mem_cons_of_mem _ hg)) hzl hc
+      rw [absPos_of_disp _ (by simp [toDisplacements]), absPos_of_pos _ rfl]
+      have hzz : vadd (zerosLike (zerosLike f)) (zerosLike f) = zerosLike f := vadd_zerosLike_left _
+      simp only [toDisplacements, Bool.false_eq_true, if_false, toDispCoords, cumsum, cumsumFrom, hzz,
+        List.map_cons]
+      rw [key, hc.map_wrap]
 
 /-- the read-only queries, as far as their effect on the state goes -/
 inductive ROp where
@@ -57,45 +215,281 @@ def applyR (s : TState) : ROp → TState
 
 /-- **C15 (any history)**: no finite sequence of read-only queries changes what the trajectory
 denotes, and the state stays well formed. -/
+theorem applyR_cases (s : TState) (op : ROp) :
+    applyR s op = toPositions s ∨ applyR s op = toDisplacements s := by
+  cases op
+  · exact Or.inl rfl
+  · exact Or.inr rfl
+  · exact Or.inr rfl
+  · exact Or.inr rfl
+
+theorem applyR_step (n : Nat) (s : TState) (op : ROp) (h : WF n s) :
+    absPos (applyR s op) = absPos s ∧ WF n (applyR s op) := by
+  rcases applyR_cases s op with e | e <;> rw [e]
+  · exact ⟨toPositions_abs s, toPositions_wf n s h⟩
+  · exact ⟨toDisplacements_abs n s h, toDisplacements_wf n s h⟩
+
 theorem history_preserves_abs (n : Nat) (ops : List ROp) (s : TState) (h : WF n s) :
     absPos (ops.foldl applyR s) = absPos s ∧ WF n (ops.foldl applyR s) := by
-  sorry
+  induction ops generalizing s with
+  | nil => exact ⟨rfl, h⟩
+  | cons op ops ih =>
+    obtain ⟨h1, h2⟩ := applyR_step n s op h
+    obtain ⟨h3, h4⟩ := ih (applyR s op) h2
+    exact ⟨by rw [List.foldl_cons, h3, h1], h4⟩
 
 /-- … in particular `.positions` read after any such history equals `.positions` read before. -/
 theorem reads_stable (n : Nat) (ops : List ROp) (s : TState) (h : WF n s) :
-    (positions (ops.foldl applyR s)).2 = (positions s).2 := by
-  sorry
+    (positions (ops.foldl applyR s)).2 = (positions s).2 :=
+  (history_preserves_abs n ops s h).1
+
+theorem map_wrap_of_wrapped (f : Frame) (h : ∀ v ∈ f, wrap v = v) : f.map wrap = f := by
+  conv_rhs => rw [← List.map_id f]
+  exact List.map_congr_left h
+
+theorem wrapped_map_wrap (g : Frame) : ∀ v ∈ g.map wrap, wrap v = v := by
+  intro v hv
+  obtain ⟨u, _, rfl⟩ := List.mem_map.mp hv
+  exact wrap_wrap u
+
+theorem wrapped_absPos (s : TState) : ∀ f ∈ absPos s, ∀ v ∈ f, wrap v = v := by
+  intro f hf
+  simp only [absPos, toPositions, List.mem_map] at hf
+  obtain ⟨g, _, rfl⟩ := hf
+  exact wrapped_map_wrap g
+
+theorem absPos_fresh (c : List Frame) : absPos (fresh c) = c.map (·.map wrap) :=
+  absPos_of_pos _ rfl
+
+theorem absPos_fresh_wrapped (c : List Frame) (h : ∀ f ∈ c, ∀ v ∈ f, wrap v = v) :
+    absPos (fresh c) = c := by
+  rw [absPos_fresh]
+  conv_rhs => rw [← List.map_id c]
+  exact List.map_congr_left (fun f hf => map_wrap_of_wrapped f (h f hf))
+
+theorem mem_toV3s : ∀ (f : Frame) (p : V3), p ∈ toV3s f → p.x ∈ f ∧ p.y ∈ f ∧ p.z ∈ f
+  | x :: y :: z :: r, p, h => by
+    simp only [toV3s, List.mem_cons] at h
+    rcases h with rfl | h
+    · simp
+    · have := mem_toV3s r p h
+      simp [this]
+  | [], p, h => by simp [toV3s] at h
+  | [_], p, h => by simp [toV3s] at h
+  | [_, _], p, h => by simp [toV3s] at h
+
+theorem mem_maskFrame (mask : List Bool) (f : Frame) (v : ℚ) (h : v ∈ maskFrame mask f) : v ∈ f := by
+  simp only [maskFrame, List.mem_flatMap] at h
+  obtain ⟨p, hp, hv⟩ := h
+  have hp1 : p.1 ∈ toV3s f := (List.of_mem_zip hp).1
+  obtain ⟨hx, hy, hz⟩ := mem_toV3s f p.1 hp1
+  split at hv
+  · simp only [V3.toList, List.mem_cons, List.not_mem_nil, or_false] at hv
+    rcases hv with rfl | rfl | rfl <;> assumption
+  · simp at hv
 
 /-- **C15 (filter)**: the selection holds exactly the chosen atoms of every frame; the source still
 denotes the same positions. -/
 theorem filter_spec (mask : List Bool) (s : TState) :
     absPos (filterT mask s).2 = (absPos s).map (maskFrame mask) ∧ absPos (filterT mask s).1 = absPos s := by
-  sorry
+  refine ⟨?_, toPositions_abs s⟩
+  show absPos (fresh ((absPos s).map (maskFrame mask))) = _
+  apply absPos_fresh_wrapped
+  intro f hf v hv
+  obtain ⟨g, hg, rfl⟩ := List.mem_map.mp hf
+  exact wrapped_absPos s g hg v (mem_maskFrame mask g v hv)
 
 /-- **C15 (slice)**: a slice holds exactly the selected frames of the source, in order. -/
 theorem slice_spec (a b c : Option Int) (s s' nw : TState) (h : sliceT a b c s = (s', some nw)) :
     ∃ idx, sliceIndices a b c (absPos s).length = some idx ∧ idx ≠ [] ∧
       absPos nw = idx.map (fun k => (absPos s).getD k []) ∧ absPos s' = absPos s := by
-  sorry
+  have h' : (match sliceIndices a b c (absPos s).length with
+      | none => (toPositions s, none)
+      | some idx =>
+        if idx.isEmpty then (toPositions s, none)
+        else (toPositions s, some (fresh (idx.map (fun k => (absPos s).getD k []))))) = (s', some nw) := h
+  cases hi : sliceIndices a b c (absPos s).length with
+  | none => rw [hi] at h'; simp at h'
+  | some idx =>
+    rw [hi] at h'
+    simp only at h'
+    by_cases he : idx.isEmpty
+    · rw [if_pos he] at h'; simp at h'
+    · rw [if_neg he] at h'
+      obtain ⟨h1, h2⟩ := Prod.mk.inj h'
+      have h2 := Option.some.inj h2
+      subst h1 h2
+      refine ⟨idx, rfl, fun hn => he (by rw [hn]; rfl), ?_, toPositions_abs s⟩
+      apply absPos_fresh_wrapped
+      intro f hf v hv
+      obtain ⟨k, _, rfl⟩ := List.mem_map.mp hf
+      by_cases hk : k < (absPos s).length
+      · exact wrapped_absPos s _ (getD_mem _ k hk) v hv
+      · rw [List.getD_eq_getElem?_getD, List.getElem?_eq_none (Nat.le_of_not_lt hk)] at hv
+        simp at hv
+
+theorem rangeList_one : ∀ (fuel k : Nat) (a : Int), k ≤ fuel →
+    rangeList a (a + k) 1 fuel = (List.range k).map (fun (i : Nat) => a + (i : Int)) := by
+  intro fuel
+  induction fuel with
+  | zero =>
+    intro k a hk
+    have : k = 0 := by omega
+    subst this
+    rfl
+  | succ fuel ih =>
+    intro k a hk
+    cases k with
+    | zero =>
+      have hc : ¬((1 : Int) > 0 ∧ a < a + ((0 : Nat) : Int) ∨ (1 : Int) < 0 ∧ a > a + ((0 : Nat) : Int)) := by
+        omega
+      simp only [rangeList]
+      rw [if_neg hc]
+      rfl
+    | succ k =>
+      have hc : ((1 : Int) > 0 ∧ a < a + ((k + 1 : Nat) : Int) ∨ (1 : Int) < 0 ∧ a > a + ((k + 1 : Nat) : Int)) := by
+        omega
+      have e : a + ((k + 1 : Nat) : Int) = (a + 1) + (k : Int) := by push_cast; omega
+      simp only [rangeList]
+      rw [if_pos hc, e, ih k (a + 1) (by omega), List.range_succ_eq_map, List.map_cons, List.map_map]
+      congr 1
+      · simp
+      · apply List.map_congr_left
+        intro i _
+        simp only [Function.comp, Nat.succ_eq_add_one]
+        push_cast
+        omega
+
+theorem rangeList_mem_pos : ∀ (fuel : Nat) (a b st x : Int), 0 < st → x ∈ rangeList a b st fuel →
+    a ≤ x ∧ x < b := by
+  intro fuel
+  induction fuel with
+  | zero => intro a b st x _ h; simp [rangeList] at h
+  | succ fuel ih =>
+    intro a b st x hst h
+    simp only [rangeList] at h
+    split at h
+    · rename_i hc
+      have hab : a < b := by omega
+      rcases List.mem_cons.mp h with rfl | h
+      · exact ⟨le_refl _, hab⟩
+      · have := ih (a + st) b st x hst h
+        omega
+    · simp at h
+
+theorem rangeList_mem_neg : ∀ (fuel : Nat) (a b st x : Int), st < 0 → x ∈ rangeList a b st fuel →
+    b < x ∧ x ≤ a := by
+  intro fuel
+  induction fuel with
+  | zero => intro a b st x _ h; simp [rangeList] at h
+  | succ fuel ih =>
+    intro a b st x hst h
+    simp only [rangeList] at h
+    split at h
+    · rename_i hc
+      have hab : b < a := by omega
+      rcases List.mem_cons.mp h with rfl | h
+      · exact ⟨hab, le_refl _⟩
+      · have := ih (a + st) b st x hst h
+        omega
+    · simp at h
+
+theorem adjust_pos_bounds (x : Option Int) (len : Nat) (isStart : Bool) :
+    0 ≤ adjust x len false isStart ∧ adjust x len false isStart ≤ len := by
+  unfold adjust
+  cases x with
+  | none => cases isStart <;> simp
+  | some v =>
+    simp only [Bool.false_eq_true, if_false]
+    split
+    · split <;> omega
+    · split <;> omega
+
+theorem adjust_neg_bounds (x : Option Int) (len : Nat) (isStart : Bool) :
+    -1 ≤ adjust x len true isStart ∧ adjust x len true isStart ≤ (len : Int) - 1 := by
+  unfold adjust
+  cases x with
+  | none => cases isStart <;> simp
+  | some v =>
+    simp only [if_true]
+    split
+    · split <;> omega
+    · split <;> omega
+
+theorem adjust_nat (a len : Nat) (isStart : Bool) (h : a ≤ len) :
+    adjust (some (a : Int)) len false isStart = a := by
+  unfold adjust
+  have h1 : ¬ ((a : Int) < 0) := by omega
+  simp only [Bool.false_eq_true, if_false]
+  rw [if_neg h1]
+  split
+  · omega
+  · rfl
 
 /-- `traj[:]` selects every frame -/
 theorem sliceIndices_full (len : Nat) : sliceIndices none none none len = some (List.range len) := by
-  sorry
+  have h := rangeList_one (len + 1) len 0 (by omega)
+  rw [Int.zero_add] at h
+  have e : sliceIndices none none none len = some ((rangeList 0 (len : Int) 1 (len + 1)).map Int.toNat) := rfl
+  rw [e, h, List.map_map]
+  congr 1
+  conv_rhs => rw [← List.map_id (List.range len)]
+  apply List.map_congr_left
+  intro i _
+  simp
 
 /-- `traj[a:b]` with `0 ≤ a ≤ b ≤ len` selects the frames `a, …, b−1` (the form `split` uses) -/
 theorem sliceIndices_range (a b len : Nat) (hab : a ≤ b) (hb : b ≤ len) :
     sliceIndices (some a) (some b) none len = some ((List.range (b - a)).map (· + a)) := by
-  sorry
+  have e : sliceIndices (some (a : Int)) (some (b : Int)) none len
+      = some ((rangeList (adjust (some (a : Int)) len false true) (adjust (some (b : Int)) len false false)
+          1 (len + 1)).map Int.toNat) := rfl
+  have hb' : (b : Int) = (a : Int) + ((b - a : Nat) : Int) := by omega
+  rw [e, adjust_nat a len true (by omega), adjust_nat b len false hb, hb',
+    rangeList_one (len + 1) (b - a) a (by omega), List.map_map]
+  congr 1
+  apply List.map_congr_left
+  intro i _
+  simp only [Function.comp]
+  omega
 
 /-- selected indices are always valid frame indices -/
 theorem sliceIndices_lt (a b c : Option Int) (len : Nat) (idx : List Nat)
     (h : sliceIndices a b c len = some idx) : ∀ k ∈ idx, k < len := by
-  sorry
+  unfold sliceIndices at h
+  simp only at h
+  split at h
+  · simp at h
+  · rename_i hst
+    have h := Option.some.inj h
+    subst h
+    intro k hk
+    obtain ⟨x, hx, rfl⟩ := List.mem_map.mp hk
+    by_cases hneg : c.getD 1 < 0
+    · rw [decide_eq_true hneg] at hx
+      have h1 := rangeList_mem_neg _ _ _ _ _ hneg hx
+      have h2 := adjust_neg_bounds a len true
+      have h3 := adjust_neg_bounds b len false
+      omega
+    · rw [decide_eq_false hneg] at hx
+      have h1 := rangeList_mem_pos _ _ _ _ _ (by omega) hx
+      have h2 := adjust_pos_bounds a len true
+      have h3 := adjust_pos_bounds b len false
+      omega
 
 /-- **C15 (extend)**: the extended trajectory denotes its old frames followed by the other's frames. -/
 theorem extend_spec (s o : TState) :
     absPos (extendT s o).1 = absPos s ++ absPos o ∧ absPos (extendT s o).2 = absPos o := by
-  sorry
+  refine ⟨?_, toPositions_abs o⟩
+  have e : absPos (extendT s o).1 = (absPos s ++ absPos o).map (·.map wrap) := absPos_of_pos _ rfl
+  rw [e]
+  conv_rhs => rw [← List.map_id (absPos s ++ absPos o)]
+  apply List.map_congr_left
+  intro f hf
+  apply map_wrap_of_wrapped
+  rcases List.mem_append.mp hf with hf | hf
+  · exact wrapped_absPos s f hf
+  · exact wrapped_absPos o f hf
 
 /-- non-vacuity: read displacements, then filter, slice backwards and extend -/
 example :
